@@ -386,7 +386,7 @@ def implpa(finder, variant, e):
 
 
 # ------------------------------------------------------------------ sweeps
-def sweep(ctx, finder, variant, q_start, q_end, step, tie_every=1, event_every=0, klass='era'):
+def sweep(ctx, finder, variant, q_start, q_end, step, tie_every=1, event_every=0, klass='era', pairs=True):
     """Queries advancing by `step` from q_start to q_end: order, spacing, distance, tie, event predicates."""
     E = env()
     Ep = E['Epoch']
@@ -418,7 +418,7 @@ def sweep(ctx, finder, variant, q_start, q_end, step, tie_every=1, event_every=0
                 ctx.case('pa_jde', [finder, e.jde(), bool(variant)], enc(jde1), q=None, klass='pa_jde/' + klass)
         if res is not None:
             pred_near(ctx, finder, variant, qq, res[0], b)
-            if prev is not None:
+            if prev is not None and pairs:
                 pred_pair(ctx, finder, variant, prev[0], prev[1], qq, res[0], b)
             if event_every and res[0] != last_event_res and (n_events == 0 or i % event_every == 0):
                 pred_event(ctx, finder, variant, qq, res)
@@ -567,7 +567,9 @@ def tasks(ctx):
             for s_ in range(nsl):
                 lo = J_LO + (J_HI - J_LO) * s_ / nsl
                 hi = J_LO + (J_HI - J_LO) * (s_ + 1) / nsl
-                T.append((sweep, (ctx, f, variant, lo, hi, P, 50, 0, 'every_orbit')))
+                # steps of 0.7 period visit every orbit; the order / spacing predicates are for the fine sweeps only
+                # (the count follows the decimal year, which is not linear in the JDE: a coarse step may pass two events)
+                T.append((sweep, (ctx, f, variant, lo, hi, 0.7 * P, 50, 0, 'every_orbit', False)))
     return T
 
 
